@@ -45,9 +45,12 @@ pub fn prepare(c: &SchedCase) -> Result<Prepared, String>
     let mut flags = vec![];
     let mut originals = vec![];
     let n = w.model.rules.len();
+    // rules that have dependents are listed twice: a failure there has something to cancel
+    let mut choice: Vec<usize> = (0..n).filter(|i| !w.model.dependents_of_rule(*i).is_empty()).collect();
+    choice.extend(0..n);
     for (k, (pick, kind)) in c.fail.iter().enumerate()
     {
-        let ri = gen::pick(*pick, n);
+        let ri = choice[gen::pick(*pick, choice.len())];
         if originals.iter().any(|(i, _)| *i == ri)
         {
             continue;
